@@ -103,3 +103,14 @@ func BubbleGoroutines() []Goroutine {
 	}
 	return out
 }
+
+// CurrentBubble returns the id of the caller's synctest bubble (0 if none).
+func CurrentBubble() int64 {
+	me := GoID()
+	for _, g := range Goroutines() {
+		if g.ID == me {
+			return g.BubbleID
+		}
+	}
+	return 0
+}
